@@ -12,6 +12,12 @@ ops (tokens after `C07`):
 * `assocd …`                                     → `<dists>` only
 * `refs <M> <p> <scaling|none>`                  → points (floats as bit patterns)
 * `mem <rows;…> <best> <worst>`                  → `<best'> <worst'>`
+* `norm <fits;…> <membest|none> <memworst|none> <memext;…|none> <sing|x,…>`
+                                                 → `<best> <worst> <extreme;…> <intercepts>` (the last
+  argument is what `numpy.linalg.solve` answered: the model's `solve` parameter)
+* `nassoc <fits;…> <refs;…> <membest|none> <memworst|none> <memext|none> <sing|x,…>`
+                                                 → `<niches> <dists>` with the model's own normalisation
+* `nassocd …`                                    → `<dists>` only
 -/
 namespace DriverC07
 open Proto
@@ -28,7 +34,45 @@ def ratToFloat (q : Rat) : Float := Float.ofInt q.num / Float.ofNat q.den
 
 def rect {β : Type} (rows : List (List β)) (w : Nat) : Bool := rows.all (fun r => r.length == w)
 
+def parseOptList (s : String) : Option (Option (List Float)) :=
+  if s = "none" then some none else (parseList parseFloat s).map some
+
+def parseOptList2 (s : String) : Option (Option (List (List Float))) :=
+  if s = "none" then some none else (parseList2 parseFloat s).map some
+
+def parseSolve (s : String) : Option (Option (List Float)) :=
+  if s = "sing" then some none else (parseList parseFloat s).map some
+
+structure NormArgs where
+  fits : List (List Float)
+  mb : Option (List Float)
+  mw : Option (List Float)
+  me : Option (List (List Float))
+  sol : Option (List Float)
+
+def parseNorm (fs bs ws es ss : String) : Option NormArgs := do
+  let f ← parseList2 parseFloat fs
+  let mb ← parseOptList bs
+  let mw ← parseOptList ws
+  let me ← parseOptList2 es
+  let sol ← parseSolve ss
+  let m := (f.headD []).length
+  if f.isEmpty || m = 0 || !(rect f m) then none
+  else if !(mb.all (·.length == m)) || !(mw.all (·.length == m)) || !(me.all (fun e => rect e m)) then none
+  else if !(sol.all (·.length == m)) then none
+  else some ⟨f, mb, mw, me, sol⟩
+
+def runNorm (a : NormArgs) : List Float × List Float × List (List Float) × List Float :=
+  Nsga3.normalisation (fun _ _ => a.sol) a.fits a.mb a.mw a.me
+
 def handle : List String → String
+  | ["norm", fs, bs, ws, es, ss] =>
+    match parseNorm fs bs ws es ss with
+    | some a =>
+      let (b, w, e, i) := runNorm a
+      showList showFloat b ++ " " ++ showList showFloat w ++ " " ++ showList2 showFloat e ++ " "
+        ++ showList showFloat i
+    | none => "bad-op"
   | ["spea2", ws, ks, fs, ds] =>
     match (do
       let w ← parseList2 parseRat ws
@@ -125,6 +169,18 @@ def handle : List String → String
       if m = 0 || w.length != m || !(rect r m) then "bad-op" else
       showList showFloat (Nsga3.colMin r b) ++ " " ++ showList showFloat (Nsga3.colMax r w)
     | none => "bad-op"
+  | [op, fs, rs, bs, ws, es, ss] =>
+    if op != "nassoc" && op != "nassocd" then "bad-op" else
+    match parseNorm fs bs ws es ss, parseList2 parseFloat rs with
+    | some a, some r =>
+      let m := (a.fits.headD []).length
+      if r.isEmpty || !(rect r m) then "bad-op" else
+      let (b, _, _, i) := runNorm a
+      let res := Nsga3.associate a.fits r b i
+      if op == "nassoc" then
+        showList toString (res.map (·.1)) ++ " " ++ showList showFloat (res.map (·.2))
+      else showList showFloat (res.map (·.2))
+    | _, _ => "bad-op"
   | _ => "bad-op"
 
 end DriverC07
